@@ -112,8 +112,12 @@ def render_scene(r, kind):
         bx, by = cx0 + r.uniform(-1, 1), cy0 + r.uniform(-1, 1)
         srcs.append((bx, by, r.uniform(200, 900)))
         for _ in range(r.choice([0, 0, 1, 2])):
-            ang, dist = r.uniform(0, 2 * math.pi), r.uniform(3.0, 4.5)
-            srcs.append((bx + dist * math.cos(ang), by + dist * math.sin(ang), r.uniform(200, 900)))
+            for _try in range(20):                                           # companions stay inside the frame
+                ang, dist = r.uniform(0, 2 * math.pi), r.uniform(3.0, 4.5)
+                cx_, cy_ = bx + dist * math.cos(ang), by + dist * math.sin(ang)
+                if 0.5 <= cx_ <= nx - 1.5 and 0.5 <= cy_ <= ny - 1.5:
+                    srcs.append((cx_, cy_, r.uniform(200, 900)))
+                    break
     img = np.zeros((ny, nx))
     for x, y, f in srcs:
         m = model.copy()
@@ -142,7 +146,7 @@ def phot_stream(rep, r, n, lines, exps, metas):
             for _ in range(6):
                 mask[r.randrange(ny), r.randrange(nx)] = True
         sep = r.choice([6.0, 7.0, 8.0])
-        use_gid = r.random() < 0.25
+        use_gid = r.random() < 0.35
         truth = {i: srcs[i] for i in order}
         if use_gid:
             # a valid user grouping: the single-linkage clusters, numbered differently (reversed)
@@ -150,8 +154,10 @@ def phot_stream(rep, r, n, lines, exps, metas):
                 warnings.simplefilter('ignore')
                 g0 = [int(v) for v in SourceGrouper(sep)(init['x'], init['y'])]
             init['group_id'] = [max(g0) + 1 - v for v in g0]
-        phot = PSFPhotometry(model, fit_shape, grouper=SourceGrouper(sep), aperture_radius=4, progress_bar=False)
-        replay = {'model': kind, 'sources': srcs, 'order': order, 'init': {c_: [float(v) for v in init[c_]] for c_ in init.colnames}, 'fit_shape': list(fit_shape), 'min_separation': sep,
+        # a supplied group_id column is honoured with or without a grouper object
+        no_grouper = use_gid and r.random() < 0.5
+        phot = PSFPhotometry(model, fit_shape, grouper=None if no_grouper else SourceGrouper(sep), aperture_radius=4, progress_bar=False)
+        replay = {'grouper': None if no_grouper else 'SourceGrouper', 'model': kind, 'sources': srcs, 'order': order, 'init': {c_: [float(v) for v in init[c_]] for c_ in init.colnames}, 'fit_shape': list(fit_shape), 'min_separation': sep,
                   'group_id_supplied': use_gid, 'mask': None if mask is None else np.argwhere(mask).tolist()}
         try:
             with warnings.catch_warnings():
@@ -163,7 +169,7 @@ def phot_stream(rep, r, n, lines, exps, metas):
         nsrc = len(order)
         grouped = len(set(res['group_id'])) < nsrc
         rep.case((kind, tuple(map(tuple, srcs)), tuple(order), fit_shape, sep, use_gid), grouped or mask is not None,
-                 kind=f'psfphot:{kind}' + (':group_id' if use_gid else '') + (':mask' if mask is not None else ''),
+                 kind=f'psfphot:{kind}' + (':group_id' if use_gid else '') + (':no-grouper' if no_grouper else '') + (':mask' if mask is not None else ''),
                  sample={'model': kind, 'nsources': nsrc, 'fit_shape': list(fit_shape), 'group_sizes': [int(v) for v in res['group_size']]})
         # (S) rows in input order with ids 1..N
         if list(res['id']) != list(range(1, nsrc + 1)) or not np.allclose(res['x_init'], init['x']) or not np.allclose(res['y_init'], init['y']):
